@@ -270,7 +270,7 @@ def mutate(rng, root):
     if kind == "value" and e.attrs:
         i = rng.randrange(len(e.attrs))
         k, v = e.attrs[i]
-        e.attrs[i] = (k, rng.choice(["", "abc", "1e", "1.2.3", "-", "1 1", v + "x", "١٢", "1e999", "99999999999", "-5", "0", "1.5", "NaN", "inf"]))
+        e.attrs[i] = (k, rng.choice(["", "abc", "1e", "1.2.3", "-", "1 1", v + "x", "١٢", "1e999", "1e300", "-1e18", "99999999999", "-5", "0", "1.5", "NaN", "inf"]))
         return r, f"value {k}={e.attrs[i][1]!r} on <{e.tag}>"
     if kind == "text":
         e.kids.insert(rng.randint(0, len(e.kids)), El("__text__", text=rng.choice(["x", " 1 2 ", "\t\n", "&amp;"])))
@@ -388,7 +388,10 @@ def run_docs(ctx, corr, exe, docs, stream):
         corr.count(f"{stream}_docs")
         payload = {"stream": stream, "label": label, "doc": d.decode("utf-8", "replace"), "split": k}
         if i in crashes:
-            corr.fail(f"parser harness crashed/sanitizer report on {label}", payload, "GKFparser", crashes[i][1])
+            if crashes[i][0] == 88:
+                corr.fail(f"GKFparser does not terminate (10 s limit) on {label}", payload, "GKFparser::startElement", "harness alarm")
+            else:
+                corr.fail(f"parser harness crashed/sanitizer report on {label}", payload, "GKFparser", crashes[i][1])
             continue
         if i in mcr:
             corr.disagree(stream, [label], out[-3:], model[i][-3:], "model driver crashed: " + mcr[i][1][-300:])
@@ -627,7 +630,8 @@ def exec_inputs(ctx, thorough_override=None):
         r, what = mutate(rng, gen_network(rng))
         inputs.append((f"mutation: {what}", ('<?xml version="1.0" ?>\n' + ser_mut(r)).encode()))
     lits = ["", " ", "+", "-", ".", "e", "1e", "1e+", "1e5", "1E-3", "+.5", "5.", "1 1", "1.2.3", "0x10", "1e999", "-1e999", "99999999999999999999",
-            "2147483648", "-2147483649", "4294967297", "1-2-3", "-1-2-3", "+-1-2-3", "400-0-0", "0-60-60", "1-2-3e400", "NaN", "inf", "١", "1\t", "\n1\n"]
+            "2147483648", "-2147483649", "4294967297", "1-2-3", "-1-2-3", "+-1-2-3", "400-0-0", "0-60-60", "1-2-3e400", "NaN", "inf", "١", "1\t", "\n1\n",
+            "1e300", "-1e300", "1e18", "1e-320", "99999999-59-59.9"]
     attrs = [("parameters", "sigma-apr"), ("parameters", "conf-pr"), ("parameters", "tol-abs"), ("parameters", "cov-band"), ("parameters", "latitude"),
              ("network", "epoch"), ("points-observations", "distance-stdev"), ("points-observations", "direction-stdev"),
              ("point", "x"), ("point", "z"), ("distance", "val"), ("direction", "val"), ("angle", "val"), ("obs", "orientation"), ("obs", "from_dh"),
